@@ -34,12 +34,14 @@ type World struct {
 	cur     string            // checked-out branch
 	Log     []string          // command log for replay files
 	Attr    string            // attribute line for *.bin (default: the line git lfs track writes)
+	HasRoot bool              // a root commit with .gitattributes exists below the spec's commits
 }
 
 // WorldOpts are concretisation-only dimensions: the spec says the answer does not depend on them.
 type WorldOpts struct {
-	Attr    string   // attributes for *.bin, e.g. "filter=lfs diff=lfs merge=lfs -text"
-	Ambient []string // "section.key=value" entries added to the user's global git config
+	Attr        string   // attributes for *.bin, e.g. "filter=lfs diff=lfs merge=lfs -text"
+	Ambient     []string // "section.key=value" entries added to the user's global git config
+	CommitAttrs bool     // track through a committed .gitattributes (root commit) instead of .git/info/attributes
 }
 
 func (w *World) Content(o string) []byte {
@@ -52,7 +54,7 @@ func (w *World) Content(o string) []byte {
 }
 func (w *World) Hex(o string) string { return core.Sha(w.Content(o)) }
 func (w *World) Abstract(hex string) string {
-	for _, o := range []string{"o1", "o2", "o3", "o4"} {
+	for _, o := range []string{"o1", "o2", "o3", "o4", "n1", "n2"} {
 		if w.Hex(o) == hex {
 			return o
 		}
@@ -119,7 +121,52 @@ func NewWorldOpts(root, binDir string, seed int64, o WorldOpts) (*World, error) 
 			return nil, err
 		}
 	}
+	if o.CommitAttrs {
+		if err := os.WriteFile(filepath.Join(w.Clone, ".gitattributes"), []byte("*.bin "+w.Attr+"\n"), 0o644); err != nil {
+			return nil, err
+		}
+		if _, err := w.git("add", ".gitattributes"); err != nil {
+			return nil, err
+		}
+		if r := env.GitDate(w.Clone, w.Now-86400*30, "commit", "-q", "-m", "attributes"); !r.OK() {
+			return nil, fmt.Errorf("root commit: %s", r.All())
+		}
+		w.cur = "main"
+		w.HasRoot = true
+		return w, nil
+	}
 	return w, w.SetAttributes(w.Clone)
+}
+
+// NonCanonicalPointerText is a parseable but non-canonical spelling (CRLF line endings).
+func (w *World) NonCanonicalPointerText(o string) string {
+	return strings.ReplaceAll(w.PointerText(o), "\n", "\r\n")
+}
+
+// IsNonCanon: abstract oids named n* are committed with a non-canonical pointer.
+func IsNonCanon(o string) bool { return strings.HasPrefix(o, "n") }
+
+// EnsureLocalObject writes the object's bytes into the local store (used when a pointer is staged directly).
+func (w *World) EnsureLocalObject(o string) error {
+	p := gitenv.LocalObjectPath(w.GitDir(), w.Hex(o))
+	if _, err := os.Stat(p); err == nil {
+		return nil
+	}
+	if err := os.MkdirAll(filepath.Dir(p), 0o755); err != nil {
+		return err
+	}
+	return os.WriteFile(p, w.Content(o), 0o444)
+}
+
+// BadOids lists the abstract oids found in lfs/bad with the validity of their bytes.
+func (w *World) BadOids() map[string][]byte {
+	out := map[string][]byte{}
+	ents, _ := os.ReadDir(filepath.Join(w.GitDir(), "lfs", "bad"))
+	for _, e := range ents {
+		b, _ := os.ReadFile(filepath.Join(w.GitDir(), "lfs", "bad", e.Name()))
+		out[w.Abstract(e.Name())] = b
+	}
+	return out
 }
 
 func (w *World) SetAttributes(repo string) error {
@@ -172,7 +219,12 @@ func (w *World) Commit(b, p, blob string, age int) error {
 		if err := w.checkout(b, false, ""); err != nil {
 			return err
 		}
-	} else if w.cur != "main" { // first commit on main of an empty repo
+	} else if w.cur != "main" { // first commit on main
+		if w.HasRoot {
+			if err := w.checkout("main", false, ""); err != nil {
+				return err
+			}
+		}
 		w.cur = "main"
 	}
 	file := filepath.Join(w.Clone, PathFile(p))
@@ -194,7 +246,15 @@ func (w *World) Commit(b, p, blob string, age int) error {
 			return fmt.Errorf("add raw: %s", r.All())
 		}
 	default:
-		if err := w.Env.WriteFile(file, w.Content(blob), 0o644); err != nil {
+		if IsNonCanon(blob) {
+			// the pointer is committed in a non-canonical spelling (clean passes pointers through)
+			if err := w.EnsureLocalObject(blob); err != nil {
+				return err
+			}
+			if err := w.Env.WriteFile(file, []byte(w.NonCanonicalPointerText(blob)), 0o644); err != nil {
+				return err
+			}
+		} else if err := w.Env.WriteFile(file, w.Content(blob), 0o644); err != nil {
 			return err
 		}
 		if _, err := w.git("add", "--", PathFile(p)); err != nil {
@@ -293,7 +353,11 @@ func (w *World) Merge(b, o string, tree map[string]string) error {
 			w.Env.Git(w.Clone, "-c", "filter.lfs.clean=", "-c", "filter.lfs.process=", "-c", "filter.lfs.required=false", "add", "--", PathFile(p))
 		default:
 			// stage the pointer directly (content may not be local any more)
-			w.Env.WriteFile(file, []byte(w.PointerText(blob)), 0o644)
+			txt := w.PointerText(blob)
+			if IsNonCanon(blob) {
+				txt = w.NonCanonicalPointerText(blob)
+			}
+			w.Env.WriteFile(file, []byte(txt), 0o644)
 			if rr := w.Env.Git(w.Clone, "add", "--", PathFile(p)); !rr.OK() {
 				return fmt.Errorf("merge add: %s", rr.All())
 			}
@@ -333,6 +397,9 @@ func (w *World) Damage(o, how string) error {
 		b := append(append([]byte{}, w.Content(o)...), []byte("extra")...)
 		os.Chmod(p, 0o644)
 		return os.WriteFile(p, b, 0o644)
+	case "replaced":
+		os.Chmod(p, 0o644)
+		return os.WriteFile(p, w.Content("o4"), 0o644)
 	}
 	return fmt.Errorf("unknown damage %s", how)
 }
